@@ -486,6 +486,31 @@ def _schedule_cpool(p1, a1, p2, a2, nclients, maxc, nkeys, cancel_client, cancel
     return st['bad'] is None
 
 
+def _schedule_host_bounded(p1, a1, p2, a2, nclients, maxc, cancel_client, cancel_step, close_client):
+    """N = 3 clients on one real HostPool under a preemption bound (the all-schedules harness is N = 2 in the quick tier)."""
+    st = {'i': 0, 'bad': None}
+    p1 = pick(list(range(60)), p1)
+    a1 = pick([1, 2, 3], a1 - 1)
+    p2 = pick(list(range(61)), p2)
+    a2 = pick([1, 2, 3], a2 - 1)
+    nclients = pick([1, 2, 3], nclients - 1)
+    maxc = pick([1, 2], maxc - 1)
+    cancel_client = pick([-1, 0, 1, 2], cancel_client + 1)
+    cancel_step = pick(list(range(16)), cancel_step)
+    close_client = pick([-1, 0, 1, 2], close_client + 1)
+
+    def chooser(n):
+        i = st['i']
+        st['i'] = i + 1
+        a = a1 if i == p1 else (a2 if i == p2 else 0)
+        return a if a < n else n - 1
+    with nosym():
+        _run_world(chooser, False, nclients, maxc, 1, cancel_client, cancel_step, close_client, st)
+    if st['bad'] is None:
+        hit('quiescent')
+    return st['bad'] is None
+
+
 def _fx(**kw):
     return {k: v for k, v in kw.items() if v is not None}
 
@@ -536,6 +561,18 @@ HARNESSES = [
       doc='ALL schedules (symbolic scheduler decision at every step) of N clients on one HostPool with limit M, one client possibly '
           'cancelled at a symbolic step, one connection possibly closed while held: no sharing, |busy| <= M, no deadlock, nothing '
           'checked out and the lock free at quiescence'),
+    H('schedules_host3', '_schedule_host_bounded',
+      'p1: int, a1: int, p2: int, a2: int, nclients: int, maxc: int, cancel_client: int, cancel_step: int, close_client: int',
+      pre={'quick': ['0 <= p1 <= 25 and 1 <= a1 <= 2 and p2 == 60 and a2 == 1 and nclients == 3 and 1 <= maxc <= 2',
+                     '-1 <= cancel_client <= 2 and 0 <= cancel_step <= 12 and close_client == -1'],
+           'thorough': ['0 <= p1 <= 40 and 1 <= a1 <= 2 and p1 < p2 <= 60 and 1 <= a2 <= 2 and nclients == 3 and 1 <= maxc <= 2',
+                        '-1 <= cancel_client <= 2 and 0 <= cancel_step <= 15 and -1 <= close_client <= 2']},
+      parts=[{'tag': 'm%d_c%d' % (m, c), 'fix': _fx(maxc=str(m), cancel_client=str(c), cancel_step='0' if c < 0 else None)} for m in (1, 2) for c in (-1, 0, 1, 2)],
+      timeout={'quick': 250, 'thorough': 1800}, path_timeout=30,
+      samples=[(0, 1, 60, 1, 3, 1, -1, 0, -1), (3, 1, 60, 1, 3, 1, 1, 5, -1)], need=['quiescent'],
+      funcs=['wpull/network/pool.py:HostPool.acquire', 'wpull/network/pool.py:HostPool.release'],
+      doc='three clients on one HostPool (limit 1-2), schedules within a preemption bound, one client cancelled at a symbolic step - in '
+          'particular a waiter that has just been notified: the connection it would have taken goes to the next waiter (no lost wake-up)'),
     H('schedules_cpool', '_schedule_cpool',
       'p1: int, a1: int, p2: int, a2: int, nclients: int, maxc: int, nkeys: int, cancel_client: int, cancel_step: int, close_client: int',
       pre={'quick': ['0 <= p1 < 40 and 1 <= a1 <= 2 and p1 < p2 <= 60 and 1 <= a2 <= 2 and nclients == 2 and 1 <= maxc <= 2 and 1 <= nkeys <= 2',
